@@ -721,7 +721,7 @@ def main(ctx):
             ctx.violation('V', 'recorded %s event (%s) violates %s' % (ev['kind'], ev.get('route') or ev.get('flavour'), rej[ev['id']][0]),
                           case={k: ev[k] for k in ev if k not in ('obs', 'id', 'post')}, actual=ev.get('obs') or ev.get('post'), clause=rej[ev['id']][0], expected=rej[ev['id']][1])
     from . import twin
-    tev = twin.events(rng, 1500 if quick else 36000, [twin.flat_pair, twin.flat_pair, twin.hier_pair, twin.hier_pair, twin.lazy_pair])
+    tev = twin.events(rng, 2600 if quick else 60000, [twin.flat_pair, twin.hier_pair, twin.hier_pair, twin.lazy_pair, twin.derived_pair, twin.derived_pair, twin.derived_pair])
     for k, ev in enumerate(tev):
         ev['id'] = k
         ctx.count('V_twin_' + ev['info'].get('kind', 'history').split(':')[0])
@@ -744,7 +744,7 @@ def main(ctx):
     ctx.sample({'leg': 'V', 'event': {k: events[0][k] for k in events[0] if k != 'obs'}})
     return ctx.finish(rule='M: grow-only index at the grain of IndexGO.append (map / map-less form, promotion, deferred rebuild), MaxLen 4 (thorough 6), all append sequences over 6 values x recache interleavings; '
                            'R: TLC -simulate behaviours driven through a real IndexGO with map / recache / label state compared after each step; '
-                           'V: construct (26 flat + 9 auto-integer + 8 datetime routes; int, str, float, date, tuple, mixed-object, bool labels; 30% with a duplicate), derive (23 routes incl. set operations, static / grow-only / stale-cache sources), hierarchical flat / level_drop / level_add / roll / selection, and grow-only histories (plain, auto-integer, FrameGO columns, date, year-month) with the private state bound to SFIndex step by step; twin sweep: one of ~45 public calls on a grown IndexGO / IndexHierarchyGO (reads that materialise caches between the appends, none at the end) against the same call on a twin built at once')
+                           'V: construct (26 flat + 9 auto-integer + 8 datetime routes; int, str, float, date, tuple, mixed-object, bool labels; 30% with a duplicate), derive (23 routes incl. set operations, static / grow-only / stale-cache sources), hierarchical flat / level_drop / level_add / roll / selection, and grow-only histories (plain, auto-integer, FrameGO columns, date, year-month) with the private state bound to SFIndex step by step; twin sweep: one of ~45 public calls on a grown IndexGO / IndexHierarchyGO (reads that materialise caches between the appends, none at the end) against the same call on a twin built at once; also never-read static hierarchies against read ones, and indices DERIVED by one or two operations (selections, sorts, level edits, set operations; directly or through a Series / Frame) against indices built from the same labels')
 
 
 def replay(rec):
